@@ -385,6 +385,11 @@ Ltac bstep :=
   | Hw : int_width ?w = true |- context [ceq ?S (CInt ?w ?sg, ?x) (CInt ?w ?sg, ?y)] =>
       rewrite (ceq_TT S w sg x y Hw) by assumption; cbn [obind]; cbv beta
   | |- context [beq (?T, ?x) (?T', ?y)] => unfold beq; cbn [snd obind]; cbv beta
+  | |- context [ceq ?S (CBool, ?x) (CBool, ?y)] => rewrite (ceq_bool S x y) by reflexivity; cbn [obind]; cbv beta
+  | |- context [ceq ?S (CPtr ?sz, ?x) (CPtr ?sz', ?y)] =>
+      change (ceq S (CPtr sz, x) (CPtr sz', y)) with (Some (x =? y)); cbn [obind]; cbv beta
+  | |- context [ceq ?S (CFlt, ?x) (CFlt, ?y)] =>
+      change (ceq S (CFlt, x) (CFlt, y)) with (Some (feq S x y)); cbn [obind]; cbv beta
   end.
 
 Ltac norms :=
@@ -394,8 +399,11 @@ Ltac norms :=
       rewrite (norm_norm w sg w sg' x) by (pose proof (width_pos w Hw); lia)
   end.
 
+Lemma truth_bool (b : bool) : truth (CBool, if b then 1 else 0) = b.
+Proof. destruct b; reflexivity. Qed.
+
 Ltac truths :=
-  change (truth (CBool, 1)) with true; change (truth (CBool, 0)) with false.
+  change (truth (CBool, 1)) with true; change (truth (CBool, 0)) with false; rewrite ?truth_bool.
 
 Ltac splits :=
   repeat match goal with
@@ -550,7 +558,10 @@ Ltac spur_split :=
   | |- context [if ?s then 1 else 0] => destruct s; cbv iota; truths; cbv iota
   end.
 
-Ltac wrap_exec HI := expose; norms; try spur_split; repeat (istep HI; norms); splits; simp; norms; try reflexivity; try congruence.
+Ltac wrap_exec HI :=
+  expose; norms; try spur_split; truths; cbv iota;
+  repeat (first [istep HI | bstep]; simp; norms; truths; cbv iota);
+  splits; simp; norms; try reflexivity; try congruence.
 
 Lemma wrapped_int_agrees (G : opn -> cty -> Z -> Z -> Prop) P I : (forall T v a, G Load T v a) ->
   agrees_on (impl_q G) P KInt I -> agrees_on (fun o _ T v a => G o T v a) P KInt (wrapped_int I).
